@@ -96,7 +96,7 @@ def parseTerm : Nat → List String → Option (Rd × List String)
       pure (.ioBytes r false none {} 0, rest)
     | _ => none
 
-inductive HOp
+inductive DOp
   | ra (n : Nat) (off : Int) | rd (n : Nat) | sk (off : Int) (w : Whence) | cl
   | rf (n : Nat) | raf (n : Nat) (off : Int) | ird (n : Nat) | isk (off : Int) (w : Whence)
 deriving Repr, Inhabited
@@ -104,7 +104,7 @@ deriving Repr, Inhabited
 def parseWhence : String → Option Whence
   | "s" => some .start | "c" => some .current | "e" => some .end_ | _ => none
 
-def parseOp (s : String) : Option HOp :=
+def parseOp (s : String) : Option DOp :=
   match words s with
   | ["ra", n, off] => do pure (.ra (← n.toNat?) (← parseInt off))
   | ["rd", n] => do pure (.rd (← n.toNat?))
@@ -145,11 +145,11 @@ def parseObs (s : String) : Option Obs :=
 
 /-! ### the model on a history -/
 
-def isBitOp : HOp → Bool
+def isBitOp : DOp → Bool
   | .ird _ | .isk _ _ => false
   | _ => true
 
-def modelOp (s : Rd) (op : HOp) : Out :=
+def modelOp (s : Rd) (op : DOp) : Out :=
   match op with
   | .ra n off => step depthFuel s (.readAt n off)
   | .rd n => step depthFuel s (.read n)
@@ -160,14 +160,14 @@ def modelOp (s : Rd) (op : HOp) : Out :=
   | .ird n => step depthFuel s (.readB n)
   | .isk off w => step depthFuel s (.seekB off w)
 
-def resObs (op : HOp) (r : Res) : Obs :=
+def resObs (op : DOp) (r : Res) : Obs :=
   match op with
   | .ird _ => .res r.n r.bytes (errStr r.err)
   | .isk _ _ | .sk _ _ | .cl => .res r.n [] (errStr r.err)
   | _ => .res r.n (packR r.bits) (errStr r.err)
 
 /-- model observations, quirk flags accumulated up to and including each op, fault message -/
-def runModel : Rd → List HOp → Nat → List (Obs × Nat × String) × Option String
+def runModel : Rd → List DOp → Nat → List (Obs × Nat × String) × Option String
   | _, [], _ => ([], none)
   | s, op :: ops, q =>
     match modelOp s op with
@@ -311,7 +311,7 @@ def whenceBase (w : Whence) (pos : Int) (len : Nat) : Int :=
   match w with | .start => 0 | .current => pos | .end_ => len
 
 /-- one step of the specification cursor; returns the verdict and the next cursor -/
-def checkOp (c : Cur) (op : HOp) (o : Obs) : PV × Cur :=
+def checkOp (c : Cur) (op : DOp) (o : Obs) : PV × Cur :=
   match o with
   | .panic => (.fail "panic", c)
   | .hang => (.fail "hang", c)
@@ -359,7 +359,7 @@ def checkOp (c : Cur) (op : HOp) (o : Obs) : PV × Cur :=
 def knownKey (q : Nat) (_why : String) : Option String :=
   if q &&& qIoSeek ≠ 0 then some "ioreadseeker-unaligned-seek" else none
 
-def histVerdict (s : Rd) (ops : List HOp) (impl : List Obs) : String := Id.run do
+def histVerdict (s : Rd) (ops : List DOp) (impl : List Obs) : String := Id.run do
   let (model, bad) := runModel s ops 0
   if let some why := bad then return s!"BADOP model: {why}"
   -- correspondence
